@@ -8,7 +8,6 @@ import (
 	"fmt"
 	"io"
 	"net"
-	"strings"
 	"time"
 
 	"github.com/Jigsaw-Code/outline-sdk/transport"
@@ -40,7 +39,90 @@ func mkKey(id, cipher, secret string) *Key {
 	if err != nil {
 		panic(err)
 	}
-	return &Key{ID: id, Cipher: cipher, Secret: secret, EK: ek}
+	k := &Key{ID: id, Cipher: cipher, Secret: secret, EK: ek}
+	if r := hsRegistry(); r != nil {
+		r.keys = append(r.keys, k)
+	}
+	return k
+}
+
+// ---- handshake registry: the two 2^-32 events the statements of C07/C08 allow ----
+
+type hsRec struct {
+	k    *Key
+	salt []byte
+}
+
+type hsReg struct {
+	keys []*Key
+	hs   []hsRec
+}
+
+func hsRegistry() *hsReg {
+	if simrt.S == nil {
+		return nil
+	}
+	r, _ := simrt.S.Values["harness.handshakes"].(*hsReg)
+	if r == nil {
+		r = &hsReg{}
+		simrt.S.Values["harness.handshakes"] = r
+	}
+	return r
+}
+
+// idsLike lists the ids of the run's keys that share k's cipher and secret (the
+// server may have matched the stream under any of them).
+func (r *hsReg) idsLike(k *Key) []string {
+	seen := map[string]bool{k.ID: true}
+	ids := []string{k.ID}
+	for _, o := range r.keys {
+		if o.Cipher == k.Cipher && o.Secret == k.Secret && !seen[o.ID] {
+			seen[o.ID] = true
+			ids = append(ids, o.ID)
+		}
+	}
+	return ids
+}
+
+// freshRefusalExcused reports whether the refusal of a never-seen client stream
+// under k (opening with wire) is one of the events the statements allow with
+// probability 2^-32 per pair/handshake: a 32-bit checksum collision in the
+// replay history with another client handshake of this run, or a random client
+// salt that carries the server's own mark. Both are established by asking the
+// real implementation about exactly that pair (black box: NewReplayCache/Add,
+// MakeCipherEntry/IsServerSalt); no constant of the implementation is mirrored.
+// Salts come from the real random generator, so without this a clean tree would
+// raise a non-replayable alarm about once in a few dozen thorough campaigns.
+func freshRefusalExcused(rc *RunCtx, k *Key, wire []byte) bool {
+	S := k.EK.SaltSize()
+	if len(wire) < S {
+		return false
+	}
+	salt := wire[:S]
+	r := hsRegistry()
+	for _, id := range r.idsLike(k) {
+		e := service.MakeCipherEntry(id, k.EK, k.Secret)
+		if e.SaltGenerator.IsServerSalt(salt) {
+			rc.Probe("excused:client_salt_carries_server_mark")
+			return true
+		}
+	}
+	for _, o := range r.hs {
+		if bytes.Equal(o.salt, salt) {
+			continue
+		}
+		for _, oid := range r.idsLike(o.k) {
+			for _, id := range r.idsLike(k) {
+				c := service.NewReplayCache(4)
+				c.Add(oid, o.salt)
+				if !c.Add(id, salt) {
+					rc.Probe("excused:replay_checksum_collision")
+					return true
+				}
+			}
+		}
+	}
+	return false
 }
 
 // sameCrypto reports whether two keys are the same (cipher, secret).
@@ -65,6 +147,16 @@ func genKeys(G *simrt.Tape, n int, prefix string) []*Key {
 		ks = append(ks, mkKey(fmt.Sprintf("%skey-%d", prefix, i), c, secret))
 	}
 	return ks
+}
+
+// cryptoDup reports whether another key of the list has k's cipher and secret.
+func cryptoDup(keys []*Key, k *Key) bool {
+	for _, o := range keys {
+		if o != k && sameCrypto(o, k) {
+			return true
+		}
+	}
+	return false
 }
 
 func mkCipherList(keys []*Key) *list.List {
@@ -119,6 +211,7 @@ func (r *TCPRec) count(kind string) int {
 
 func (r *TCPRec) AddAuthenticated(accessKey string) {
 	r.Calls = append(r.Calls, MCall{Kind: "auth", Key: accessKey, At: simrt.Elapsed(), Seq: simrt.Steps()})
+	simrt.Account(128)
 	if r.inner != nil {
 		r.inner.AddAuthenticated(accessKey)
 	}
@@ -126,6 +219,7 @@ func (r *TCPRec) AddAuthenticated(accessKey string) {
 }
 func (r *TCPRec) AddClosed(status string, data metrics.ProxyMetrics, d time.Duration) {
 	r.Calls = append(r.Calls, MCall{Kind: "closed", Status: status, Data: data, At: simrt.Elapsed(), Seq: simrt.Steps()})
+	simrt.Account(128)
 	if r.inner != nil {
 		r.inner.AddClosed(status, data, d)
 	}
@@ -133,6 +227,7 @@ func (r *TCPRec) AddClosed(status string, data metrics.ProxyMetrics, d time.Dura
 }
 func (r *TCPRec) AddProbe(status, drain string, n int64) {
 	r.Calls = append(r.Calls, MCall{Kind: "probe", Status: status, Drain: drain, N: n, At: simrt.Elapsed(), Seq: simrt.Steps()})
+	simrt.Account(128)
 	if r.inner != nil {
 		r.inner.AddProbe(status, drain, n)
 	}
@@ -168,18 +263,21 @@ func (r *UDPRec) count(kind string) int {
 
 func (r *UDPRec) AddPacketFromClient(status string, a, b int64) {
 	r.Calls = append(r.Calls, UCall{"fromclient", status, a, b, simrt.Elapsed(), simrt.Steps()})
+	simrt.Account(128)
 	if r.inner != nil {
 		r.inner.AddPacketFromClient(status, a, b)
 	}
 }
 func (r *UDPRec) AddPacketFromTarget(status string, a, b int64) {
 	r.Calls = append(r.Calls, UCall{"fromtarget", status, a, b, simrt.Elapsed(), simrt.Steps()})
+	simrt.Account(128)
 	if r.inner != nil {
 		r.inner.AddPacketFromTarget(status, a, b)
 	}
 }
 func (r *UDPRec) RemoveNatEntry() {
 	r.Calls = append(r.Calls, UCall{"remove", "", 0, 0, simrt.Elapsed(), simrt.Steps()})
+	simrt.Account(128)
 	r.RemAt = simrt.Elapsed()
 	if r.inner != nil {
 		r.inner.RemoveNatEntry()
@@ -202,6 +300,22 @@ func (m *RecMetrics) AddOpenTCPConnection(conn net.Conn) service.TCPConnMetrics 
 	if tc, ok := conn.(*simnet.TCPConn); ok {
 		r.ConnID = tc.Rec.ID
 		r.Server = tc
+	} else if conn != nil && conn.RemoteAddr() != nil {
+		// the server may hand the metrics a wrapper: identify the connection by
+		// its endpoints (the latest accepted connection from that remote address)
+		ra, la := conn.RemoteAddr().String(), ""
+		if conn.LocalAddr() != nil {
+			la = conn.LocalAddr().String()
+		}
+		cs := simnet.W().Conns
+		for i := len(cs) - 1; i >= 0; i-- {
+			se := cs[i].Ends[1]
+			if se != nil && se.RemoteAddr().String() == ra && (la == "" || se.LocalAddr().String() == la) {
+				r.ConnID = cs[i].ID
+				r.Server = se
+				break
+			}
+		}
 	}
 	if m.Inner != nil {
 		r.inner = m.Inner.AddOpenTCPConnection(conn)
@@ -324,13 +438,19 @@ func startTCPServer(rc *RunCtx, w *simnet.World, o tcpServerOpts) *tcpServer {
 			h.Handle(ctx, conn, s.M.AddOpenTCPConnection(conn))
 		}
 	}
+	// "serving stops only after all running handlers have returned": count handler
+	// entries and returns in the wrapper (not goroutine lifetimes, whose epilogue
+	// after the handler returned is the server's own business)
+	inner := handle
+	entered, returned := 0, 0
+	handle = func(ctx context.Context, conn transport.StreamConn) {
+		entered++
+		defer func() { returned++ }()
+		inner(ctx, conn)
+	}
 	simrt.GoNamed("StreamServe", func() {
 		service.StreamServe(ln.AcceptStream, handle)
-		for _, t := range simrt.Snapshot() {
-			if t.Kind == "repo" && strings.Contains(t.Created, "service.StreamServe(") {
-				s.handlersAtReturn++
-			}
-		}
+		s.handlersAtReturn = entered - returned
 		s.Served = true
 	})
 	return s
@@ -357,12 +477,24 @@ func (s *tcpServer) connect(clientIP net.IP, port int) (*simnet.TCPConn, error) 
 type ssEncoder struct {
 	buf bytes.Buffer
 	w   *shadowsocks.Writer
+	k   *Key
+	reg bool
 }
 
 func newEncoder(k *Key) *ssEncoder {
-	e := &ssEncoder{}
+	e := &ssEncoder{k: k}
 	e.w = shadowsocks.NewWriter(&e.buf, k.EK)
 	return e
+}
+
+// note records the stream's salt in the run's handshake registry.
+func (e *ssEncoder) note() {
+	if S := e.k.EK.SaltSize(); !e.reg && e.buf.Len() >= S {
+		e.reg = true
+		if r := hsRegistry(); r != nil {
+			r.hs = append(r.hs, hsRec{e.k, append([]byte(nil), e.buf.Bytes()[:S]...)})
+		}
+	}
 }
 
 // Chunk encrypts p as one or more chunks (≤16383 bytes each) and returns the
@@ -372,6 +504,7 @@ func (e *ssEncoder) Chunk(p []byte) []byte {
 	if _, err := e.w.Write(p); err != nil {
 		panic(err)
 	}
+	e.note()
 	return append([]byte(nil), e.buf.Bytes()[before:]...)
 }
 
@@ -385,6 +518,7 @@ func (e *ssEncoder) Lazy(p []byte) {
 func (e *ssEncoder) Flush() []byte {
 	before := e.buf.Len()
 	e.w.Flush()
+	e.note()
 	return append([]byte(nil), e.buf.Bytes()[before:]...)
 }
 
